@@ -105,7 +105,7 @@ def rewrite_templates(text):
 
     def cast(m):
         return "static_cast__(%s, " % ("T__" + ascii_name(re.sub(r"\s+", "", m.group(1)).replace("::", "__").replace("*", "_ptr")))
-    text = re.sub(r"static_cast\s*<\s*((?:typename\s+)?[\w:]+(?:\s*\*)?)\s*>\s*\(", cast, text)
+    text = re.sub(r"static_cast\s*<\s*((?:typename\s+|const\s+)?[\w:]+(?:\s*\*)?)\s*>\s*\(", cast, text)
     text = re.sub(r"std::is_same_v\s*<\s*(\w+)\s*,\s*(\w+)\s*>", r"is_same_v__(\1, \2)", text)
     return text
 
@@ -642,9 +642,29 @@ class Exec:
         self.what = what
         self.dry = 0
         self.reads = None
+        self.pending = []           # `let .. in` lines of the effects of the expression just evaluated (client languages with effects)
+        self.pending_w = []         # the variables those lines assign
 
     def oog(self, msg):
         raise OutOfGrammar("%s: %s" % (self.what, msg))
+
+    def flush(self, env):
+        """-> (text of the pending effect bindings, environment after them)"""
+        pre = "".join(l + "\n    " for l in self.pending)
+        for n in self.pending_w:
+            env = env.wrote(n) if n in env.vars else env.declare(n, Var(self.pending_t.get(n, "N"))).wrote(n)
+        self.pending, self.pending_w = [], []
+        return pre, env
+
+    pending_t = {}
+
+    def mok(self, tup):
+        f = getattr(self.u.lang, "m_ok", None)
+        return f(self, tup) if f else "(Ok %s)" % tup
+
+    def mbind(self, expr, names, rest):
+        f = getattr(self.u.lang, "m_bind", None)
+        return f(self, expr, names, rest) if f else "obind (%s) (fun %s =>\n    %s)" % (expr, self.pat(names), rest)
 
     def note(self, name):
         if self.reads is not None:
@@ -744,9 +764,10 @@ class Exec:
         return ts[0] if len(ts) == 1 else "(%s)%%type" % " * ".join(ts)
 
     def let(self, env, name, ty, val, k):
-        """C++ variable `name` := val; continue"""
+        """C++ variable `name` := val; continue (the effects of the expression `val` was computed from come first)"""
+        pre, env = self.flush(env)
         env = env.wrote(name) if name in env.vars else env.declare(name, Var(ty)).wrote(name)
-        return "let %s := %s in\n    %s" % (gname(name), val, k(env))
+        return "%slet %s := %s in\n    %s" % (pre, gname(name), val, k(env))
 
     def throw_text(self, s, ctx):
         if ctx.mode != "O":
@@ -755,6 +776,8 @@ class Exec:
 
     # ---- statements
     def block(self, stmts, i, env, k, ctx):
+        if self.pending:
+            self.oog("effects of an expression left pending")
         if i == len(stmts):
             return k(env)
         s = stmts[i]
@@ -783,19 +806,20 @@ class Exec:
         if tag == "lambda":
             return rest(env.declare(s[1], Var("LAM", "lam", {"caps": s[2], "params": s[3], "body": s[4]})))
         if tag == "incr":
-            if s[1] not in env.vars or env.vars[s[1]].kind != "val" or env.vars[s[1]].ty not in ("N", "Z"):
+            if s[1] not in env.vars or env.vars[s[1]].kind != "val" or env.vars[s[1]].ty not in getattr(self.u.lang, "INCR_TYPES", ("N", "Z")):
                 self.oog("++ on %s" % s[1])
             self.note(s[1])
             ty = env.vars[s[1]].ty
-            return self.let(env, s[1], ty, "(S %s)" % gname(s[1]) if ty == "N" else "(Z.succ %s)" % gname(s[1]), rest)
+            return self.let(env, s[1], ty, "(Z.succ %s)" % gname(s[1]) if ty == "Z" else "(S %s)" % gname(s[1]), rest)
         if tag == "assign":
             return self.u.lang.assign(self, env, s[1], s[2], s[3], rest, ctx)
         if tag == "expr":
             return self.u.lang.call_stmt(self, env, s[1], rest, ctx)
         if tag == "if":
             c = self.ex(s[1], env, "B")[1]
+            pre, env = self.flush(env)
             arms = [(c, s[2]), (None, s[3] if s[3] is not None else [])]
-            return self.branch(env, arms, lambda texts: "if %s then\n    %s\n    else\n    %s" % (c, texts[0], texts[1]), rest, ctx)
+            return pre + self.branch(env, arms, lambda texts: "if %s then\n    %s\n    else\n    %s" % (c, texts[0], texts[1]), rest, ctx)
         if tag == "switch":
             e = self.ex(s[1], env)
             arms = self.u.lang.switch_arms(self, s, env, scrut=e)
@@ -831,14 +855,16 @@ class Exec:
                 return rest(env)
             if throws and ctx.mode != "O":
                 self.oog("throw in a context translated as pure")
-            sub = Ctx("O" if throws else "P")
-            done = (lambda e: "(Ok %s)" % self.tup(e, W)) if throws else (lambda e: self.tup(e, W))
-            texts = [self.block(b, 0, env, done, sub) for _, b in arms]
             env2 = env
             for n in W:
                 env2 = env2.wrote(n)
             if throws:
-                return "obind (%s) (fun %s =>\n    %s)" % (render(texts), self.pat(W), rest(env2))
+                W = [n for n in W if n not in getattr(self.u.lang, "MONAD_VARS", ())]
+            sub = Ctx("O" if throws else "P")
+            done = (lambda e: self.mok(self.tup(e, W))) if throws else (lambda e: self.tup(e, W))
+            texts = [self.block(b, 0, env, done, sub) for _, b in arms]
+            if throws:
+                return self.mbind(render(texts), W, rest(env2))
             return "let %s := (%s) in\n    %s" % (self.pat(W), render(texts), rest(env2))
         texts = [self.block(b, 0, env, (lambda e, outer=env: rest(self.leave(outer, e))), ctx) for _, b in arms]
         return render(texts)
